@@ -99,14 +99,37 @@ class Interp(CallMixin):
     # ------------------------------------------------------------------ helpers for rules
     def enum(self, cls_qualname: str, name: str) -> EnumVal:
         cls = self.model.cls(cls_qualname)
-        members = self.model.enum_members(cls)
+        members = self.members(cls)
         if name not in members:
             raise Unsupported(f"{cls_qualname} has no member {name}")
         return EnumVal(cls_qualname, name, members[name])
 
+    def members(self, cls: ClassDef) -> Dict[str, Any]:
+        """name -> value of an Enum's members in definition order; values that are not plain literals (tuples holding
+        classes, calls ...) are evaluated in the class body's scope."""
+        key = (cls.qualname, "enum-members")
+        if key in self.attr_memo:
+            return self.attr_memo[key]
+        literal = self.model.enum_members_literal(cls)
+        out: Dict[str, Any] = {}
+        for st in cls.node.body:
+            if isinstance(st, ast.Assign) and len(st.targets) == 1 and isinstance(st.targets[0], ast.Name):
+                name = st.targets[0].id
+                if name.startswith("_"):
+                    continue
+                if name in literal:
+                    out[name] = literal[name]
+                elif not isinstance(st.value, ast.Lambda):
+                    val = self.eval(st.value, Frame(None, cls.module, None, set()))
+                    if isinstance(val, (FuncVal, Obj)) and not isinstance(val, Obj):
+                        continue  # descriptors / functions are not members
+                    out[name] = val
+        self.attr_memo[key] = out
+        return out
+
     def enum_all(self, cls_qualname: str) -> List[EnumVal]:
         cls = self.model.cls(cls_qualname)
-        return [EnumVal(cls_qualname, n, v) for n, v in self.model.enum_members(cls).items()]
+        return [EnumVal(cls_qualname, n, v) for n, v in self.members(cls).items()]
 
     def funcval(self, qualname: str, self_obj: Any = None) -> FuncVal:
         fn = self.model.func(qualname)
@@ -143,6 +166,8 @@ class Interp(CallMixin):
             res.append(n)
             if n in LARK_EXC:
                 work.extend(LARK_EXC[n])
+            elif n == "lark.Token":
+                work.append("builtins.str")  # lark tokens are strings
             elif n in ("attrs.exceptions.FrozenInstanceError", "attr.exceptions.FrozenInstanceError", "dataclasses.FrozenInstanceError"):
                 work.append("builtins.AttributeError")
             elif n in self.ext_bases:
@@ -403,7 +428,10 @@ class Interp(CallMixin):
                 f_ = f_.parent
             if f_ is None:
                 self.unsupported(st, frame, "yield outside a generator frame")
-            if isinstance(st.value, ast.Yield):
+            if isinstance(st.value, ast.Yield) and getattr(f_, "yield_hook", None) is not None:
+                # the body of a @contextmanager function: the with-block runs where the generator is suspended
+                f_.yield_hook(self.eval(st.value.value, frame) if st.value.value is not None else None)
+            elif isinstance(st.value, ast.Yield):
                 f_.yields.append(self.eval(st.value.value, frame) if st.value.value is not None else None)
             else:
                 f_.yields.extend(self.iterate(self.eval(st.value.value, frame), st, frame))
@@ -456,7 +484,7 @@ class Interp(CallMixin):
             else:
                 self.exec_block(st.orelse, frame)
             return
-        if isinstance(st, ast.For):
+        if isinstance(st, (ast.For, ast.AsyncFor)):
             items = self.iterate(self.eval(st.iter, frame), st.iter, frame)
             broke = False
             for item in items:
@@ -503,8 +531,11 @@ class Interp(CallMixin):
             self.exec_try(st, frame)
             return
         if isinstance(st, ast.Assert):
+            before = len(self.ch.trace)
             if not self.truth(self.eval(st.test, frame), st.test):
-                raise PathAbort()  # asserts are assumptions of the analysed code
+                if len(self.ch.trace) == before:
+                    self.raise_("AssertionError", "")  # the condition is definitely false on this path
+                raise PathAbort()  # a condition on unknown values: an assumption of the analysed code
             return
         if isinstance(st, ast.Pass):
             return
@@ -575,7 +606,38 @@ class Interp(CallMixin):
         cls = self.model.classes.get(mgr.cls) if isinstance(mgr, Obj) else None
         enter = self.model.find_method(cls, "__enter__") if cls is not None else None
         exit_ = self.model.find_method(cls, "__exit__") if cls is not None else None
-        if enter is None or exit_ is None:
+        if enter is None and exit_ is not None and cls is not None and any("AbstractContextManager" in b or "ContextDecorator" in b for b in self.model.mro(cls.qualname)):
+            pass  # __enter__ inherited from contextlib.AbstractContextManager returns the manager itself
+        elif enter is None or exit_ is None:
+            if isinstance(mgr, Obj) and mgr.cls == "contextlib.cm":
+                state: Dict[str, Any] = {"entered": False, "ctrl": None}
+
+                def hook(value: Any) -> None:
+                    if state["entered"]:
+                        self.raise_("RuntimeError", "generator didn't stop")
+                    state["entered"] = True
+                    if item.optional_vars is not None:
+                        self.assign(item.optional_vars, value, frame)
+                    try:
+                        self.exec_with(st, i + 1, frame)
+                    except (_Return, _Break, _Continue) as ctrl:  # leaving the block is a normal exit for the manager
+                        state["ctrl"] = ctrl
+
+                self.pending_yield_hook = hook
+                try:
+                    self.call(mgr.fields["fn"], list(mgr.fields["args"]), dict(mgr.fields["kwargs"]), st, frame)
+                finally:
+                    self.pending_yield_hook = None
+                if not state["entered"]:
+                    self.raise_("RuntimeError", "generator didn't yield")
+                if state["ctrl"] is not None:
+                    raise state["ctrl"]
+                return
+            if isinstance(mgr, Obj) and mgr.cls == "contextlib.nullcontext":
+                if item.optional_vars is not None:
+                    self.assign(item.optional_vars, mgr.fields.get("value"), frame)
+                self.exec_with(st, i + 1, frame)
+                return
             if isinstance(mgr, Obj) and mgr.cls == "contextlib.suppress":
                 try:
                     self.exec_with(st, i + 1, frame)
@@ -588,7 +650,7 @@ class Interp(CallMixin):
                 self.assign(item.optional_vars, mgr if isinstance(mgr, Opaque) else Opaque("with"), frame)
             self.exec_with(st, i + 1, frame)
             return
-        entered = self.call(FuncVal(fn=enter, self_obj=mgr, module=enter.module), [], {}, st, frame)
+        entered = self.call(FuncVal(fn=enter, self_obj=mgr, module=enter.module), [], {}, st, frame) if enter is not None else mgr
         if item.optional_vars is not None:
             self.assign(item.optional_vars, entered, frame)
         try:
@@ -763,6 +825,11 @@ class Interp(CallMixin):
             return self.enum_all(v.name)
         if isinstance(v, Obj) and v.cls in self.model.classes and "typing.NamedTuple" in self.model.mro(v.cls):
             return [v.fields[k] for k in self.model.attrs_fields(self.model.classes[v.cls])]
+        if isinstance(v, Obj) and v.cls == "types.AsyncGeneratorType":
+            if v.fields.get("done"):
+                return []
+            v.fields["done"] = True
+            return self.run_function(v.fields["func"], v.fields["args"], v.fields["kwargs"], node)
         raise Unsupported(f"iteration over {v!r} at line {getattr(node, 'lineno', '?')}")
 
     # ------------------------------------------------------------------ expressions
@@ -823,6 +890,8 @@ class Interp(CallMixin):
                 else:
                     assert isinstance(part, ast.FormattedValue)
                     v = self.eval(part.value, frame)
+                    if part.conversion in (ord("s"), ord("r"), ord("a")):  # the conversion comes first, then the format spec
+                        v = self.to_str(v, part, frame, repr_mode=(part.conversion != ord("s")))
                     if part.format_spec is not None:
                         spec = self.eval(part.format_spec, frame)
                         if isinstance(spec, str) and isinstance(v, (str, int, float, bool)) and not isinstance(v, StrT):
@@ -831,9 +900,9 @@ class Interp(CallMixin):
                                 continue
                             except (ValueError, TypeError) as err_:
                                 self.raise_(type(err_).__name__, str(err_))
-                        if spec != "":
+                        if spec not in ("", "s") or (spec == "s" and not isinstance(v, StrT)):
                             self.unsupported(part, frame, f"format spec {spec!r} on {v!r}")
-                    acc = strt_concat(acc, self.to_str(v, part, frame, repr_mode=(part.conversion == ord("r"))))
+                    acc = strt_concat(acc, v if isinstance(v, (str, StrT)) else self.to_str(v, part, frame))
             return acc
         if isinstance(e, ast.Tuple):
             return tuple(self.eval_elts(e.elts, frame))
@@ -943,6 +1012,14 @@ class Interp(CallMixin):
             return self.fork(("in", repr(item), repr(container)), f"{item!r} in {container!r}")
         if isinstance(container, Opaque):
             return self.fork(("in", repr(item), container.oid), f"{item!r} in {container.label}")
+        if isinstance(container, ClassVal) and container.name in self.model.classes and self.model.is_enum(self.model.classes[container.name]):
+            if isinstance(item, EnumVal):
+                return item.cls == container.name
+            if isinstance(item, (str, int)) and not isinstance(item, bool):  # Python >= 3.12: values are accepted, too
+                return any(v == item and type(v) is type(item) for v in self.members(self.model.classes[container.name]).values())
+            if isinstance(item, (Opaque, StrT)):
+                return self.fork(("in-enum", repr(item), container.name), f"{item!r} in {container.name}")
+            return False
         self.unsupported(node, frame, f"'in' on {container!r}")
         return False
 
@@ -1018,6 +1095,15 @@ class Interp(CallMixin):
                 return StrT((Opaque(f"{cont!r}[{lo}:{hi}]"),))  # some part of a text that is not known literally
             self.unsupported(e, frame, "slice")
         idx = self.eval(e.slice, frame)
+        if isinstance(cont, Obj) and cont.cls == "builtins.module_globals":
+            if not isinstance(idx, str):
+                self.unsupported(e, frame, f"globals()[{idx!r}]")
+            try:
+                return self.module_value(cont.fields["module"], idx, e)  # looked up when the subscript is evaluated (late binding)
+            except Unsupported as err_:
+                if "cannot be resolved" in str(err_):
+                    raise PyRaise(self.exc("builtins.KeyError", idx)) from err_
+                raise
         if isinstance(cont, (list, tuple, str)):
             if not isinstance(idx, int):
                 self.unsupported(e, frame, f"index {idx!r}")
@@ -1033,7 +1119,7 @@ class Interp(CallMixin):
         if isinstance(cont, ClassVal):
             c_ = self.model.classes.get(cont.name)
             if c_ is not None and self.model.is_enum(c_) and isinstance(idx, str):
-                members = self.model.enum_members(c_)
+                members = self.members(c_)
                 if idx in members:
                     return EnumVal(cont.name, idx, members[idx])
                 raise PyRaise(self.exc("builtins.KeyError", idx))
@@ -1120,6 +1206,8 @@ class Interp(CallMixin):
         is_gen = any(isinstance(n_, (ast.Yield, ast.YieldFrom)) for n_ in walk_shallow(fn.node))
         if is_gen:
             frame.yields = []  # a finite generator is materialised eagerly (laziness is not modelled)
+            frame.yield_hook = getattr(self, "pending_yield_hook", None)
+            self.pending_yield_hook = None
         try:
             self.bind_params(fn.node.args, fv, args, kwargs, frame, fn.qualname)
             try:
